@@ -21,6 +21,7 @@ import (
 	"net/http"
 	"reflect"
 	"strconv"
+	"sync"
 	"time"
 
 	"github.com/fasthttp/websocket"
@@ -262,6 +263,7 @@ func (h *Handler) Serve(ctx context.Context, conn *websocket.Conn) {
 	}
 	ctx, cancel := context.WithCancel(ctx)
 	var err error
+	var loops sync.WaitGroup
 	defer func() {
 		cancel()
 		if e := recover(); e != nil {
@@ -272,11 +274,21 @@ func (h *Handler) Serve(ctx context.Context, conn *websocket.Conn) {
 		}
 		h.onClose(conn)
 		conn.Close()
+		// fasthttp takes the connection's buffers back as soon as Serve returns
+		// and hands them to another connection: nobody may still be reading.
+		loops.Wait()
 	}()
 	queue := make(chan data)
 	errChan := make(chan error, 1)
-	go h.receive(ctx, conn, queue, errChan)
-	go h.send(ctx, conn, queue, errChan)
+	loops.Add(2)
+	go func() {
+		defer loops.Done()
+		h.receive(ctx, conn, queue, errChan)
+	}()
+	go func() {
+		defer loops.Done()
+		h.send(ctx, conn, queue, errChan)
+	}()
 	select {
 	case <-ctx.Done():
 		err = ctx.Err()
